@@ -13,6 +13,8 @@ import (
 	"fmt"
 	"math/rand"
 	"os"
+	"runtime"
+	"time"
 
 	"github.com/paulmach/osm"
 	"github.com/paulmach/osm/osmpbf"
@@ -70,9 +72,20 @@ func consume(o osm.Object) {
 	}
 }
 
-func scan(data []byte, procs int, cf *config, active bool) (objs []pbfwire.Obs, status int, errs string, stable bool, moved string) {
+// lateConfig: how long the caller does other things between osmpbf.New and setting the Skip* / Filter*
+// fields (they are plain struct fields and can only be set after New returned).  The configuration
+// must be honoured for EVERY block, also when the caller is slow: a scanner that starts decoding
+// inside New would decode the first blocks (small files: all of them) unconfigured.
+const lateConfig = 10 * time.Millisecond
+
+func scan(data []byte, procs int, cf *config, active bool, late bool) (objs []pbfwire.Obs, status int, errs string, stable bool, moved string) {
 	sc := osmpbf.New(context.Background(), bytes.NewReader(data), procs)
 	defer sc.Close()
+	if late {
+		runtime.Gosched() // let any goroutine New may have started run
+		time.Sleep(lateConfig)
+		runtime.Gosched()
+	}
 	if cf != nil {
 		sc.SkipNodes, sc.SkipWays, sc.SkipRelations = cf.SkipNodes, cf.SkipWays, cf.SkipRelations
 		if cf.Node.Code != 0 {
@@ -135,7 +148,7 @@ func buildCase(d *pbfgen.FileDesc, cfgs []config, procsOf func(k int) []int, cla
 			described = false
 		}
 	}
-	un, st, es, _, _ := scan(data, 1, nil, false)
+	un, st, es, _, _ := scan(data, 1, nil, false, false)
 	if st != 0 && described {
 		return nil, false, fmt.Errorf("unfiltered scan failed: %s", es)
 	}
@@ -149,7 +162,12 @@ func buildCase(d *pbfgen.FileDesc, cfgs []config, procsOf func(k int) []int, cla
 			if active {
 				cons = "writes-into-and-appends-to-returned-objects"
 			}
-			objs, st, es, stable, moved := scan(data, p, &cf, active)
+			// the first configuration of every file (every decoder count of it) is set some time after New
+			late := k == 0
+			if late {
+				cons += "+configured-10ms-after-New"
+			}
+			objs, st, es, stable, moved := scan(data, p, &cf, active, late)
 			merged := false
 			for i := range fc.Runs {
 				r := &fc.Runs[i]
@@ -358,7 +376,7 @@ var canaries = []canary{
 func main() {
 	a := wire.ParseArgs()
 	w := wire.NewWriter("C08", a.Seed, a.Tier)
-	w.Rule = "one case per generated PBF file (pbfgen.RandomFile, denser groups than C01) scanned unfiltered and under 4-8 configurations (all 8 skip-flag combinations cycling, predicates accept-all/reject-all/id mod k/has-tag/even version/hashed id per element type) x decoder counts from {1,2,3,7,16}, with deep snapshots at return time re-compared at end of scan (every second run: the consumer overwrites the slice entries of each object it is handed and appends to them, and the final comparison is against the state it left); files carry first-class zero values and member types outside the enum, every 5th is a headerless restart stream of 2-6 non-empty blocks; predicates also id-range kept/rejected; plus pbfgen.DirectedCorpus under each file's own configuration (incl. plain-node groups, shipped as trees without description); non-trivial = some run returns a proper non-empty subsequence"
+	w.Rule = "one case per generated PBF file (pbfgen.RandomFile, denser groups than C01) scanned unfiltered and under 4-8 configurations (all 8 skip-flag combinations cycling, predicates accept-all/reject-all/id mod k/has-tag/even version/hashed id per element type) x decoder counts from {1,2,3,7,16}, with deep snapshots at return time re-compared at end of scan (every second run: the consumer overwrites the slice entries of each object it is handed and appends to them, and the final comparison is against the state it left); files carry first-class zero values and member types outside the enum, every 5th is a headerless restart stream of 2-6 non-empty blocks; predicates also id-range kept/rejected; plus pbfgen.DirectedCorpus under each file's own configuration (incl. plain-node groups, shipped as trees without description); the first configuration of every file is assigned 10 ms (and two scheduler yields) after osmpbf.New returned, for every decoder count of the file; non-trivial = some run returns a proper non-empty subsequence"
 	rng := wire.Rng(a.Seed)
 	nfiles, ncfg, nprocs := int(40*a.Scale), 4, 2
 	if a.Tier == "thorough" {
